@@ -133,6 +133,34 @@ Router::~Router()
         delete obstaclePtr;
         obstacle = m_obstacles.begin();
     }
+
+    // Delete connectors, shapes and junctions that exist only in the queue
+    // of pending actions.  They have not been made active by 
+    // processTransaction(), so they are in neither connRefs nor 
+    // m_obstacles, but the router owns them all the same.
+    ActionInfoList::iterator queued = actionList.begin();
+    while (queued != actionList.end())
+    {
+        if (queued->type == ConnChange)
+        {
+            // ~ConnRef() removes the connector's queued actions.
+            delete queued->conn();
+            queued = actionList.begin();
+        }
+        else
+        {
+            ++queued;
+        }
+    }
+    for (ActionInfoList::iterator curr = actionList.begin(); 
+            curr != actionList.end(); ++curr)
+    {
+        if ((curr->type == ShapeAdd) || (curr->type == JunctionAdd))
+        {
+            delete curr->obstacle();
+        }
+    }
+    actionList.clear();
     m_currently_calling_destructors = false;
 
     // Cleanup orphaned orthogonal graph vertices.
